@@ -107,6 +107,7 @@ func init() {
 			c13LateGroup(c, k)
 			c13Renamed(c, k)
 			c13TwoSections(c, k)
+			c13AddedOptions(c, k)
 		}
 		kind := c13Kinds[k]
 		d := c13Decl(k)
@@ -128,8 +129,9 @@ func init() {
 		}
 		text := ini.String()
 		warmIni := ""
+		var sharedIP *flags.IniParser // the earlier read and the read under test go through one IniParser (a program that keeps it) or through two
 		c.Describe(func() interface{} {
-			return map[string]interface{}{"type": kind.T.Name, "ini": text, "as_defaults": asDefaults, "earlier_read_on_same_parser": warmIni}
+			return map[string]interface{}{"type": kind.T.Name, "ini": text, "as_defaults": asDefaults, "earlier_read_on_same_parser": warmIni, "both_reads_through_one_IniParser": sharedIP != nil}
 		})
 		// model: which option does the entry select?
 		cands, known := ref.SectionOptions(d, strings.TrimSpace(section), "Application Options")
@@ -153,6 +155,10 @@ func init() {
 		if earlier {
 			if sel == nil || asDefaults {
 				c.Skip()
+			}
+			if c.Bool() {
+				sharedIP = flags.NewIniParser(b1.Parser)
+				c.Hit("one-IniParser-for-both-reads")
 			}
 			// another name of the selected option, in its own section
 			other := ""
@@ -189,7 +195,11 @@ func init() {
 			default:
 				warmArgv = append(warmArgv, "-"+sel.Short+"="+cw)
 			}
-			if err := flags.NewIniParser(b1.Parser).Parse(bytes.NewReader([]byte(warmIni))); err != nil {
+			wip := sharedIP
+			if wip == nil {
+				wip = flags.NewIniParser(b1.Parser)
+			}
+			if err := wip.Parse(bytes.NewReader([]byte(warmIni))); err != nil {
 				c.Fail("earlier-read-rejected", fmt.Sprint(warmIni, err))
 				return
 			}
@@ -202,7 +212,10 @@ func init() {
 					c.Fail("panic|"+explore.PanicSite(), fmt.Sprint(r))
 				}
 			}()
-			ip := flags.NewIniParser(b1.Parser)
+			ip := sharedIP
+			if ip == nil {
+				ip = flags.NewIniParser(b1.Parser)
+			}
 			ip.ParseAsDefaults = asDefaults
 			err1 = ip.Parse(bytes.NewReader([]byte(text)))
 		}()
@@ -290,7 +303,7 @@ func init() {
 			"x 1..3 repeated entries (also spread over two sections that reach the same option) x normal / as-defaults mode x {fresh parser, parser that has already read a file naming the same option by another of its names (a later read replaces, like a later command line)}; oracle: (a) the documented priority ini-name > field > namespaced long > short selects the option, unknown names/sections are errors, (b) differential: a fresh parser given the equivalent --name=value flags must end in the same option struct; " +
 			"distinct = distinct (type, section, name, repetitions, error class, options touched)",
 		Assumptions:  []string{"values without edge blanks", "a flag entry 'name = false' has no command-line equivalent and is not used"},
-		RequiredHits: []string{"selected-by:ini-name", "selected-by:field", "selected-by:long", "selected-by:short", "no-such-option-or-section", "repeated", "as-defaults"},
+		RequiredHits: []string{"selected-by:ini-name", "selected-by:field", "selected-by:long", "selected-by:short", "no-such-option-or-section", "repeated", "as-defaults", "earlier-read", "one-IniParser-for-both-reads", "options-added-with-AddOption"},
 		Bound:        [2]string{"complete product", "complete product"},
 		BudgetS:      [2]int{170, 600},
 	})
@@ -410,5 +423,55 @@ func c13TwoSections(c *explore.Ctx, k int) {
 			c.Fail("differs-from-flag|same-key-in-two-sections", map[string]interface{}{"option": o.ID, "want": ref.Show(want), "got": ref.Show(b.Vals[o]), "ini": text})
 			return
 		}
+	}
+}
+
+// c13AddedOptions: options handed over with (*Group).AddOption - one to the parser's own top group (the group that holds
+// "Application Options"), one to a group of the declaration - are options of the parser like any other: an entry before any
+// section header reaches both, and the entry means what the flag means.
+func c13AddedOptions(c *explore.Ctx, k int) {
+	d := c13Decl(k)
+	build := func() (*decl.Built, *string, *[]int) {
+		b := d.BuildTags()
+		if b.Err != nil {
+			return nil, nil, nil
+		}
+		root, nested := new(string), new([]int)
+		b.Parser.Command.Group.AddOption(&flags.Option{LongName: "rootadded", ShortName: 'R'}, root)
+		if g := b.Parser.Command.Group.Find("Application Options"); g != nil {
+			g.AddOption(&flags.Option{LongName: "nestedadded"}, nested)
+		}
+		return b, root, nested
+	}
+	b1, r1, n1 := build()
+	b2, r2, n2 := build()
+	if b1 == nil || b2 == nil {
+		return
+	}
+	c.Hit("options-added-with-AddOption")
+	names := [][2]string{{"rootadded", "nestedadded"}, {"R", "nestedadded"}}[k%2]
+	text := names[0] + " = rv\n" + names[1] + " = 4\n" + names[1] + " = 5\n"
+	var err1 error
+	func() {
+		defer func() {
+			if r := recover(); r != nil {
+				c.Fail("panic|"+explore.PanicSite(), fmt.Sprint(r))
+			}
+		}()
+		err1 = flags.NewIniParser(b1.Parser).Parse(strings.NewReader(text))
+	}()
+	if c.Failed() {
+		return
+	}
+	if _, err := b2.Parser.ParseArgs([]string{"--rootadded=rv", "--nestedadded=4", "--nestedadded=5"}); err != nil {
+		c.Fail("harness-equivalent-flags-rejected", err.Error())
+		return
+	}
+	if err1 != nil {
+		c.Fail("valid-entry-rejected|added-option", map[string]interface{}{"ini": text, "error": err1.Error()})
+		return
+	}
+	if *r1 != *r2 || fmt.Sprint(*n1) != fmt.Sprint(*n2) {
+		c.Fail("differs-from-flag|added-option", map[string]interface{}{"ini": text, "after_ini": fmt.Sprint(*r1, *n1), "after_flags": fmt.Sprint(*r2, *n2)})
 	}
 }
